@@ -31,6 +31,95 @@ def key_ok(st, key: TupleV, opname, a, b):
         x.uid == a.uid and y.uid == b.uid
 
 
+def memo_setup(fi):
+    """Arguments for a memoised function, from its annotations (Unit -> a unit, int -> a symbolic integer)."""
+    a = fi.node.args
+    params = a.posonlyargs + a.args
+    n_req = len(params) - len(a.defaults)
+    kinds = []
+    for i, p in enumerate(params[:n_req]):
+        ann = src_of(p.annotation).strip("'\"") if p.annotation is not None else ("Unit" if i == 0 and p.arg == "self" else "")
+        if ann in ("Unit", "Currency"):
+            kinds.append("unit")
+        elif ann == "int":
+            kinds.append("int")
+        else:
+            return None
+
+    def setup(c: Ctx):
+        c.new_type("T", **FLAVORS["ref"])
+        args, nu = [], 0
+        for k in kinds:
+            if k == "unit":
+                args.append(c.unit(("us", "uo", "u3", "u4")[min(nu, 3)], "T"))
+                nu += 1
+            else:
+                args.append(Num(RF.atom(("n",)), "int"))
+        return args, {}
+    return setup
+
+
+def _same_val(st, x, y) -> bool:
+    if x is y:
+        return True
+    if isinstance(x, Num) and isinstance(y, Num):
+        return st.norm(x.rf).equals(st.norm(y.rf))
+    if isinstance(x, UnitV) and isinstance(y, UnitV):
+        return st.ufind(x.uid) == st.ufind(y.uid)
+    if isinstance(x, NoneV) and isinstance(y, NoneV):
+        return True
+    if isinstance(x, FuncV) and isinstance(y, FuncV):
+        return x.name == y.name
+    if isinstance(x, StrV) and isinstance(y, StrV):
+        return x.const is not None and x.const == y.const
+    if isinstance(x, TupleV) and isinstance(y, TupleV):
+        return len(x.items) == len(y.items) and all(_same_val(st, p, q) for p, q in zip(x.items, y.items))
+    return False
+
+
+def memo_discipline(op_tags):
+    """R17.1b - the discipline any other function storing into the operation cache has to obey: the key it
+    reads is the key it writes, names every argument plus a constant tag no other memoised operation uses;
+    the stored value is the returned value; nothing is stored on a raising path."""
+    def judge(o):
+        st = o.state
+        reads, stores = cache_effects(st)
+        if o.kind == "raise":
+            return ("result cached on a raising path", repr([s_[2] for s_ in stores])) if stores else None
+        if not stores:
+            return None
+        if len(stores) != 1:
+            return ("result cached more than once", f"{len(stores)} stores")
+        key, val = stores[0][2], stores[0][3]
+        if not reads or not all(_same_val(st, r[2], key) for r in reads):
+            return ("cache write key differs from the read key", f"read {[r[2] for r in reads]!r}, write {key!r}")
+        for a in o.args:
+            if not any(_same_val(st, a, k) for k in key.items):
+                return ("memoised result is not keyed by all the inputs it depends on",
+                        f"argument {a!r} is not part of the key {key!r}")
+        tags = [k for k in key.items if isinstance(k, (FuncV, StrV)) and not any(k is a for a in o.args)]
+        if not tags:
+            return ("cache key carries no tag telling this operation from the others", repr(key))
+        if any(isinstance(t, FuncV) and t.name in op_tags for t in tags):
+            return ("cache key collides with the keys of another memoised operation", repr(key))
+        if not _same_val(st, val, o.value):
+            return ("cached value differs from the returned value", f"cached {val!r}, returned {o.value!r}")
+        return None
+    return judge
+
+
+def memo_hit_discipline(o):
+    hit = any(t.startswith("cache@") and t.endswith("=hit") for t in o.trace)
+    if not hit:
+        return None
+    if o.kind != "return" or not (isinstance(o.value, OpaqueV) and o.value.tag == "cache-hit"):
+        return ("cache hit is not returned unchanged", o.brief())
+    _, stores = cache_effects(o.state)
+    if stores:
+        return ("cache rewritten on a hit", "")
+    return None
+
+
 def run(prog, tier) -> Result:
     res = Result("C17")
     res.explanation = (
@@ -41,7 +130,8 @@ def run(prog, tier) -> Result:
         "is declared); a hit is returned unchanged. R17.3: everything a memoised result depends on is immutable "
         "after creation (unit fields, term items, type definition/reference unit/quantum: single-writer ownership). "
         "R17.4: the directories are monotone: insert-if-absent / append only, the reader takes the bucket's first "
-        "element, nothing deletes, clears or overwrites. R17.5: powers are not cached. Hence a result depends only "
+        "element, nothing deletes, clears or overwrites. R17.5: nothing else stores into the operation cache, unless it "
+        "obeys the same discipline with a key of its own (R17.1b); dropping cache entries is harmless. Hence a result depends only "
         "on the declarations present when it is evaluated.")
     res.trusted = ["dict/list semantics", "value-equivalence of the members of one registry bucket (C07 equality)"]
     cr = CaseRunner(prog, res, max_depth=8 if tier == "quick" else 12)
@@ -99,14 +189,39 @@ def run(prog, tier) -> Result:
         res.ob("R17.1", f"Unit.{name}", "one process-global cache", len(glob) <= 1, str(glob),
                sig="operators use different caches", nontrivial=False)
 
-    # R17.5 powers (and everything else) do not touch the cache
+    # R17.5 who stores into the operation cache: the two operators (through their private helpers), and any other
+    # function only if it obeys the same memo discipline (decided on its evaluated effects, R17.1b)
+    from ..anchors import _with_private_helpers
     writes = inventory(prog)
     cg = CallGraph(prog)
-    cache_names = {w.state for w in writes if w.func in ("Unit.__mul__", "Unit.__truediv__") and w.kind == "item-store"}
+    uci = prog.cls("Unit")
+    op_funcs = {f.qualname for name in ("__mul__", "__truediv__") for f in _with_private_helpers(prog, U(name), uci)}
+    cache_names = {w.state for w in writes if w.func in op_funcs and w.kind == "item-store"}
     if not cache_names:
         raise AnalysisError("anchor vanished: operation cache stores in Unit.__mul__/__truediv__")
+    other_memo = {}
+    for w in writes:
+        if w.state in cache_names and w.fi is not None and w.func not in op_funcs and \
+                w.op in ("[]=", "setdefault", "update", "[]aug"):
+            other_memo[w.func] = w.fi
+    op_tags = set(OPNAME.values())
+    memo_ok = set()
+    for q, fi in sorted(other_memo.items()):
+        setup = memo_setup(fi)
+        if setup is None:
+            continue        # cannot be evaluated generically: the store stays a foreign write (R17.5)
+        before = len(res.violations)
+        cr.run("R17.1b", fi, f"{q} stores into the operation cache (miss)", setup, memo_discipline(op_tags), site=q)
+        cr.run("R17.1b", fi, f"{q} stores into the operation cache (hit)", setup, memo_hit_discipline, cache_hits=True,
+               site=q)
+        if len(res.violations) == before:
+            memo_ok.add(q)
+    owners = {"Unit.__mul__": {"*"}, "Unit.__truediv__": {"*"}}     # what they store is decided by R17.1
+    owners.update({q: {"*"} for q in memo_ok})
     for cn in cache_names:
-        check_ownership(res, "R17.5", writes, cn, {"Unit.__mul__": {"[]="}, "Unit.__truediv__": {"[]="}}, cg)
+        # dropping entries of a transparent memo cannot change a result: removal is open to everybody
+        kept = [w for w in writes if not (w.state == cn and w.op in ("clear", "pop", "popitem", "del"))]
+        check_ownership(res, "R17.5", kept, cn, owners, cg)
 
     # R17.3 immutability of what memoised results depend on
     for state, owners in (
@@ -250,7 +365,7 @@ def run(prog, tier) -> Result:
 
     # nothing anywhere deletes from or clears a directory
     destructive = [w for w in writes if w.op in ("del", "clear", "pop", "popitem", "remove") and
-                   w.state in (sym_names | cache_names | {"_item_def_map", "_item_list", "_unit_map"})]
+                   w.state in (sym_names | {"_item_def_map", "_item_list", "_unit_map"})]
     res.ob("R17.4", "quantity", "no deletion from a directory", not destructive, repr(destructive),
            sig="directory entry deleted")
 
